@@ -30,6 +30,12 @@ CLAIMS = {
          "go/ast const declaration carrying no / a label / the opt-out trailing comment: T is an enum iff some typed constant is not opted out; members are exactly those, each once, with their comment. "
          "The real fetchConstComment/nodeAt/ast.Inspect code is executed. NOT decided: the walk over imported packages, constant values other than int64/uint64/string.",
          "DESIGN.md section 4 (C10)", ""),
+ "C09": ("Decides the selection and naming clauses. (A) StructField.Exported/JSONName against a transcription of encoding/json's typeFields/isValidTag rule, for every Go field name of 1..2 (3) identifier bytes, "
+         "every json tag value of 0..3 (5) printable bytes, gomacro tag absent/ignore/other; on every native run the transcription itself is compared with the real encoding/json (reflect.StructOf + Marshal). "
+         "(B) for typescript.codeForStruct, dart codeForStruct+jsonForStruct and the SQL JSON validator codeForStruct: adding one ignored field (unexported, json:\"-\", gomacro:\"ignore\") of any type at any position "
+         "leaves the emitted text byte-identical; (C) the three texts depend on a field only through Exported()/JSONName() (rename of a tagged field; tagged F json:\"K\" vs untagged K). "
+         "One residual class is a listed known finding (json tag names with characters encoding/json rejects). NOT decided: embedded-struct flattening conflicts, omitempty/string option effects on values.",
+         "DESIGN.md section 4 (C09)", ""),
 }
 
 NA = {
